@@ -30,7 +30,9 @@ fn gen_str(r: &mut SplitMix) -> String {
     let len = match r.below(10) {
         0 => 0,
         1..=5 => r.range(1, 12) as usize,
-        6 | 7 => r.range(13, 300) as usize,
+        6 => r.range(13, 300) as usize,
+        // the one-byte length of the short tags ends at 255: exact lengths around it
+        7 | 8 => *r.pick(&[254usize, 255, 256, 257]),
         _ => r.range(250, 260) as usize,
     };
     let alphabet: &[&str] = match r.below(4) {
@@ -107,6 +109,12 @@ fn gen_ident(r: &mut SplitMix, prefix: &str, i: u64) -> Str {
         0 => Str::from(format!("{prefix}{i}_変数{}", r.below(100))),
         1 => Str::from(format!("{prefix}{i}_é{}", r.below(100))),
         2 => Str::from(format!("{prefix}{i}_{}", "long_".repeat(r.range(50, 60) as usize))),
+        3 => {
+            // identifiers of exactly 254..=257 bytes (interned short/long tag boundary)
+            let head = format!("{prefix}{i}_");
+            let want = *r.pick(&[254usize, 255, 256, 257]);
+            Str::from(format!("{head}{}", "n".repeat(want - head.len())))
+        }
         _ => Str::from(format!("{prefix}{i}_{}", r.below(100))),
     }
 }
